@@ -55,9 +55,10 @@ def subNegotiating (d : DState) (k : Nat) : Bool :=
 
 def enabled (d : DState) : List TLabel :=
   if d.t.running = false then [] else
-  let acc := match firstUntaken d.rstreams with
+  -- once the remote has gone away yamux may report the end before it has handed out every stream it read
+  let acc := (match firstUntaken d.rstreams with
     | some _ => [TLabel.accept]
-    | none => if d.remoteClosed then [TLabel.yamuxEof] else []
+    | none => []) ++ (if d.remoteClosed then [TLabel.yamuxEof] else [])
   let inb := d.rstreams.flatMap fun r =>
     match r.sub with
     | none => []
